@@ -109,6 +109,7 @@ func setupUniverse(timeT types.Type) {
 		types.Universe.Insert(types.NewFunc(token.NoPos, nil, name, sig))
 	}
 	generic1("old", func(tp *types.TypeParam) types.Type { return tp })
+	generic1("before", func(tp *types.TypeParam) types.Type { return tp })
 	generic1("fresh", func(tp *types.TypeParam) types.Type { return bt })
 	generic1("regionof", func(tp *types.TypeParam) types.Type { return mathintType })
 	generic1("offsetof", func(tp *types.TypeParam) types.Type { return it })
